@@ -70,10 +70,10 @@ inline std::string raw_msg(const std::string& beginstr, const std::string& after
 	unsigned s = 0; for (unsigned char c : m) s += c;
 	char t[16]; snprintf(t, sizeof t, "10=%03u%c", s % 256, SOH); return m + t;
 }
-struct Hdr { std::string type, sender, target; long seq; std::string sendtime = "20231114-22:13:20.000"; std::string extra; };
+struct Hdr { std::string type, sender, target; long seq; std::string sendtime = "20231114-22:13:20.000"; std::string extra, pre34; };
 inline std::string mk(const std::string& beginstr, const Hdr& h, const std::string& body)
 {
-	std::string a = "35=" + h.type + SOH + "49=" + h.sender + SOH + "56=" + h.target + SOH + "34=" + std::to_string(h.seq) + SOH + h.extra + "52=" + h.sendtime + SOH + body;
+	std::string a = "35=" + h.type + SOH + "49=" + h.sender + SOH + "56=" + h.target + SOH + h.pre34 + "34=" + std::to_string(h.seq) + SOH + h.extra + "52=" + h.sendtime + SOH + body;
 	return raw_msg(beginstr, a);
 }
 // split a byte stream into FIX messages by BodyLength (independent framing); returns false on garbage
